@@ -8,9 +8,11 @@ import (
 	"unsafe"
 
 	"github.com/tetratelabs/wazero/internal/wasm"
+	"github.com/tetratelabs/wazero/internal/wasmruntime"
 )
 
 var (
+	_ = wasmruntime.ErrRuntimeStackOverflow
 	_ unsafe.Pointer
 	_ io.Reader
 	_ *wasm.Module
@@ -115,3 +117,18 @@ func impMemOff(m *moduleEngine) int         { return int(m.parent.offsets.Import
 //@   ensures[exporters-own-memory] impMemOff(asME(importedModuleEngine)) < 0 ==> opaqueLE64(m.opaque, impMemOff(m)) == memPtr(asME(importedModuleEngine).module.MemoryInstance)
 //@   ensures[re-exported-memory] impMemOff(asME(importedModuleEngine)) >= 0 ==> opaqueLE64(m.opaque, impMemOff(m)) == opaqueLE64(asME(importedModuleEngine).opaque, impMemOff(asME(importedModuleEngine)))
 //@   modifies elems(m.opaque)
+
+// ---- C06: unbounded recursion in compiled code ends in a stack-overflow error: the native stack is
+// regrown only up to a ceiling.
+//@ prop C06
+// (copies the live part of the stack with reflect.SliceHeader / unsafe: assumed to return a fresh buffer
+// of the requested length)
+//@ func (c *callEngine) cloneStack(l uintptr) (newSP, newFP, newTop uintptr, newStack []byte)
+//@   trusted
+//@   ensures len(newStack) == int(l) && verif_fresh_slice(newStack)
+//@   modifies nothing
+
+//@ func (c *callEngine) growStack() (newSP, newFP uintptr, err error)
+//@   requires len(c.stack) < 1<<40 && c.execCtx.stackGrowRequiredSize < 1<<40
+//@   ensures[overflow-is-an-error] uintptr(old(len(c.stack))) > callStackCeiling ==> err == wasmruntime.ErrRuntimeStackOverflow && len(c.stack) == old(len(c.stack))
+//@   ensures[otherwise-grows] uintptr(old(len(c.stack))) <= callStackCeiling ==> err == nil && uintptr(len(c.stack)) == 2*uintptr(old(len(c.stack))) + old(c.execCtx.stackGrowRequiredSize) + 16
